@@ -179,6 +179,9 @@ def run(ck, fx, cg, tier):
     stores = [n for n, _ in walk_body(set_log) if n.get("k") == "Assign" and peel(n["lhs"]).get("k") == "Field" and peel(n["lhs"])["name"] == "log"]
     ck.ob("R16.format", "set_log|stores the log file", len(stores) == 1, loc(set_log), "%d store(s) to Heap.log" % len(stores))
     ck.sample({"rule": "R16.format", "set_log_templates": tpls})
+    opens = shared.write_opens(fx, set_log)
+    ck.ob("R16.format", "set_log|log file starts empty", len(opens) == 1 and opens[0][1], loc(set_log),
+          "log opened with %s (the header must be the first line of the file)" % [o[2] for o in opens])
 
     # ------------------------------------------------------------ R16.shape
     _shape(ck, fx, cg, size_fn)
